@@ -43,7 +43,33 @@ func wgWeightDiff(rg *ref.WG, o *wgObs) string {
 				diffs = append(diffs, fmt.Sprintf("%s: weights %s, expected %s", r.ID, got, want))
 			}
 		}
+		// the accessors agree with one another: GetWeight(k) with GetWeights()[k], GetNodeByID with GetNodes, GetEdgesFromNode
+		// with GetEdges, an edge's ends with the node it hangs on
+		for k, v := range x.GetWeights() {
+			if w, ok := x.GetWeight(k); !ok || w != v {
+				diffs = append(diffs, fmt.Sprintf("%s: GetWeight(%q) = (%d, %v), GetWeights has %d", r.ID, k, w, ok, v))
+			}
+		}
+		if _, ok := x.GetWeight("no-such-type"); ok {
+			diffs = append(diffs, fmt.Sprintf("%s: GetWeight of an unknown type reports a weight", r.ID))
+		}
+		if byID, ok := o.g.GetNodeByID(x.GetUniqueLabel()); !ok || byID != x || o.g.GetNodes()[x.GetUniqueLabel()] != x {
+			diffs = append(diffs, fmt.Sprintf("%s: GetNodeByID / GetNodes do not return the node that edges point to", r.ID))
+		}
 		xe, _ := o.g.GetEdgesFromNode(x)
+		if all := o.g.GetEdges()[x.GetUniqueLabel()]; len(all) != len(xe) {
+			diffs = append(diffs, fmt.Sprintf("%s: GetEdgesFromNode returns %d edges, GetEdges %d", r.ID, len(xe), len(all)))
+		}
+		for i, e := range xe {
+			if e.GetFrom() != x {
+				diffs = append(diffs, fmt.Sprintf("%s edge %d: GetFrom is another node (%s)", r.ID, i, e.GetFrom().GetUniqueLabel()))
+			}
+			for k, v := range e.GetWeights() {
+				if w, ok := e.GetWeight(k); !ok || w != v {
+					diffs = append(diffs, fmt.Sprintf("%s edge %d: GetWeight(%q) = (%d, %v), GetWeights has %d", r.ID, i, k, w, ok, v))
+				}
+			}
+		}
 		for i, re := range r.Edges {
 			if i >= len(xe) {
 				break
